@@ -9,7 +9,7 @@ run_one() {
     name=$1; patch=$2; prop=$3
     wt=/tmp/verif_canary_$$_$name
     git -C /repo worktree add --detach -f "$wt" HEAD >/dev/null 2>&1 || { echo "CANARY $name: cannot create worktree"; fail=1; return; }
-    if ! git -C "$wt" apply "$patch"; then echo "CANARY $name: patch does not apply"; fail=1
+    if ! git -C "$wt" apply "$VERIF/$patch"; then echo "CANARY $name: patch does not apply"; fail=1
     else
         VERIF_REPO="$wt" ./check "$prop" --tier quick > "$VERIF/out/canary_$name.log" 2>&1
         rc=$?
